@@ -187,10 +187,13 @@ C02_Raises(e, p, m, m2, M) ==
   WouldBeUnsafe(e, p) =>
      \/ e.out \in {"ToolStateError", "CoolantStateError"}
      \/ e.out = "ValueError" /\ MayRejectValue(e, p, M)
+\* the documented conditions speak of a tool that is RUNNING / coolant that is ON: that is the machine's state as the emitted
+\* lines made it, not only the builder's belief (seed C02h: a refused tool_on() left the builder believing in a tool that was
+\* never started, and every later halt was refused with no tool start ever written)
 C02_OnlyDoc(e, p, m, m2, M) ==
   Rejected(e) /\ e.call \notin TracerCalls /\ ~HookAlters(e) /\ ~e.fault =>
-     \/ e.out = "ToolStateError"    /\ e.call \in ToolGuarded /\ p.tool
-     \/ e.out = "CoolantStateError" /\ e.call \in CoolGuarded /\ p.coolact
+     \/ e.out = "ToolStateError"    /\ e.call \in ToolGuarded /\ p.tool /\ m.tool # "off"
+     \/ e.out = "CoolantStateError" /\ e.call \in CoolGuarded /\ p.coolact /\ m.coolant # "off"
      \/ e.out = "ValueError"        /\ MayRejectValue(e, p, M)
      \/ e.out \in {"IndexError", "KeyError"} /\ FALSE
 
